@@ -245,6 +245,13 @@ def build(c, variant):
         g = c.fresh_real("g")
         m.st((rsome.E(e1) <= g).forall(gs))
         w.E.append([e1 - g])
+    elif variant.get("econstr") == "maxof":
+        # an expectation of a piecewise term as a CONSTRAINT: E(max(q1, q2)) <= g, not max(E q1, E q2) <= g
+        q1 = x[1] * zz + y
+        q2 = x[0] - 2 * zz
+        g = c.fresh_real("g")
+        m.st(rsome.E(rsome.maxof(q1, q2)) <= g)
+        w.E.append([q1 - g, q2 - g])
     elif variant.get("econstr"):
         e1 = x[1] * zz + y
         g = c.fresh_real("g")
@@ -300,6 +307,8 @@ VARIANTS = {
     "event,E-affine,econstr,expt-overlap": dict(obj="E-affine", expt="overlap", adapt="event", econstr=True),
     "static,E-affine,expt-all,econstr-with-its-own-set": dict(obj="E-affine", expt="all", econstr="own-set"),
     "static,R-objective,expt-per-scenario,econstr-with-its-own-set": dict(obj="R", expt="per-scenario", econstr="own-set"),
+    "static,E-affine,expt-all,E-maxof-constraint": dict(obj="E-affine", expt="all", econstr="maxof"),
+    "event,R-objective,expt-per-scenario,E-maxof-constraint": dict(obj="R", expt="per-scenario", adapt="event", econstr="maxof"),
     "event,E-affine,expt-all,convex-constraints": dict(obj="E-affine", expt="all", adapt="event", convex=True),
     "event-wise-bound,E-affine,expt-all,convex-constraints": dict(obj="E-affine", expt="all", adapt="event-y", convex=True),
     "static,E-affine,labels=(1,2,3),event-of-two-by-label": dict(obj="E-affine", expt="first-two-by-label", labels=[1, 2, 3]),
